@@ -385,6 +385,7 @@ def reshape(tens, shape, eps=1e-16, rmax=sys.maxsize):
                 else:
                     cores_new.append(core+0)
                     if idx == len(cores)-1:
+                        idx += 1
                         break
                     else:
                         idx += 1
@@ -400,6 +401,11 @@ def reshape(tens, shape, eps=1e-16, rmax=sys.maxsize):
                 core = tn.einsum('ijkl,lmno->ijmkno', core, cores[idx])
                 core = tn.reshape(
                     core, [core.shape[0], core.shape[1]*core.shape[2], -1, core.shape[-1]])
+
+        # the input cores that are left can only have modes of size 1: absorb them
+        for k in range(idx, len(cores)):
+            cores_new[-1] = tn.einsum(
+                'ijkl,lm->ijkm', cores_new[-1], cores[k][:, 0, 0, :])
 
     else:
         if np.prod(tens.N) != np.prod(shape):
@@ -428,6 +434,7 @@ def reshape(tens, shape, eps=1e-16, rmax=sys.maxsize):
                 else:
                     cores_new.append(core+0)
                     if idx == len(cores)-1:
+                        idx += 1
                         break
                     else:
                         idx += 1
@@ -442,6 +449,11 @@ def reshape(tens, shape, eps=1e-16, rmax=sys.maxsize):
 
                 core = tn.einsum('ijk,klm->ijlm', core, cores[idx])
                 core = tn.reshape(core, [core.shape[0], -1, core.shape[-1]])
+
+        # the input cores that are left can only have modes of size 1: absorb them
+        for k in range(idx, len(cores)):
+            cores_new[-1] = tn.einsum(
+                'ijk,kl->ijl', cores_new[-1], cores[k][:, 0, :])
 
         idx_shape += 1
         while idx_shape < len(shape):
